@@ -86,6 +86,18 @@ func Sensitivity(prop string) map[string]interface{} {
 			vs = append(vs, Variant{Name: "seeded " + filepath.Base(filepath.Dir(sp)), Kind: "break", Patch: sp})
 		}
 	}
+	// a behaviour-preserving change of the corpus plus one break on top of it, kept under
+	// /verif/combos/<PROP>-*/patch.diff (expect.txt: part of the rule key that must fail): the
+	// normalisation pipeline must not hide a break that sits in restructured code
+	if cs, _ := filepath.Glob(filepath.Join(core.VerifDir(), "combos", prop+"-*", "patch.diff")); cs != nil {
+		for _, sp := range cs {
+			exp := ""
+			if b, err := os.ReadFile(filepath.Join(filepath.Dir(sp), "expect.txt")); err == nil {
+				exp = strings.TrimSpace(string(b))
+			}
+			vs = append(vs, Variant{Name: "combo " + filepath.Base(filepath.Dir(sp)), Kind: "break", Patch: sp, Expect: exp})
+		}
+	}
 	// independently written behaviour-preserving changes kept under /verif/refactors/<PROP>-*/patch.diff
 	if refs, _ := filepath.Glob(filepath.Join(core.VerifDir(), "refactors", prop+"-*", "patch.diff")); refs != nil {
 		for _, sp := range refs {
